@@ -586,13 +586,15 @@ the source, `Act` or `Mach.InactiveOK` (= manual ∧ `Clean` ∧ `NoMarks` ∧ n
 `sameShape`.  For REACHABLE instances (`ReachableOf shape cfg m`, Proofs/Reach.lean: `Mach.create shape cfg`
 followed by any history of API calls) without contract violation, C01's invariant gives `Act` / `Clean`,
 `ResumableOK` and `sameShape`; what is left:
-  * `NoMarks` — holds on `QuietOf` histories only (every `load / replayTransitions / replayEnter` followed by an
-    `enter / exit / reset`, or a `replayEnter` that answered `true`).  It is FALSE after a `replayEnter` that
-    answered `false` (`Props.C01.stale_marks_witness`) and NOT PROVED after `load` itself or `replayTransitions`
-    (GAP 2 of Proofs/Reach.lean).  So the SOURCE of a round trip, and a destination that is NOT activated, must be
-    quiet; an ACTIVATED destination may be any reachable instance (`load` clears its marks first).
-    In particular "save the instance that was just loaded" is covered by `resave_identical` (its root IS the
-    source's root) but `ActiveOK` of a loaded instance as such is not derivable from C01.
+  * `NoMarks` — holds on `QuietOf` histories (Proofs/Reach.lean, GAP 2): ALL reachable histories except those
+    with a `replayEnter` of a non-empty history that answered `false` (`Props.C01.stale_marks_witness`) and no
+    washing call (`enter / exit / reset`, `load` into an activated instance, a replay that answered `true`)
+    after it.  `load` itself — all four activation combinations, any buffer the model accepts — and
+    `replayTransitions` keep an instance quiet (`Mach.load_noMarks`, `Mach.replayTransitions_noMarks`), so a
+    freshly loaded instance IS an admissible source (`activeOK_loaded_reachable`, `load_then_save_reachable`:
+    chains of replicas).  The SOURCE of a round trip, and a destination that is NOT activated, must be quiet
+    (`loadEnter` does not clear requests first: `Props.C01.stale_marks_survive_loadEnter`); an ACTIVATED
+    destination may be any reachable instance (`R_::load` clears its marks first).
   * `WidthOK` — a property of the declaration (every composite region has ≤ 256 sub-states): hypothesis
     `(shape.toNode 0 0).WidthOK`. -/
 namespace Hfsm.Props.C08
@@ -615,8 +617,8 @@ theorem sameShape_reachable (hs : ReachableOf shape cs src) (hd : ReachableOf sh
     (hes : src.w.err = none) (hed : dst.w.err = none) : dst.root.sameShape src.root :=
   (hd.sameShape' hed).trans (hs.sameShape' hes).symm
 
-/-- **Round trip, activated → activated.**  `src` quiet, `dst` ANY reachable instance of the same machine that
-is activated: after `dst.load src.save` the registry of `dst` IS the registry of `src`, and saving it again is
+/-- **Round trip, activated → activated.**  `src` quiet (e.g. itself freshly loaded: `quiet_loaded`), `dst` ANY
+reachable instance of the same machine that is activated: after `dst.load src.save` the registry of `dst` IS the registry of `src`, and saving it again is
 bit-identical. -/
 theorem load_roundtrip_active_reachable (hs : QuietOf shape cs src) (hd : ReachableOf shape cd dst)
     (hes : src.w.err = none) (hed : dst.w.err = none)
@@ -657,6 +659,73 @@ theorem load_roundtrip_both_inactive_reachable (hs : QuietOf shape cs src) (hd :
     (hsman : cs.manual = true) (hdman : cd.manual = true) : dst.load src.save = dst :=
   load_inactive_into_inactive src dst (inactiveOK_reachable hs hes hsman hsm) (inactiveOK_reachable hd hed hdman hdm)
 
+/-- loading ANY buffer into an activated reachable instance, or into a quiet one, gives a quiet instance -/
+theorem quiet_loaded (hd : ReachableOf shape cfg m) (hq : m.root.machineActive = true ∨ QuietOf shape cfg m)
+    (bits : List Bool) : QuietOf shape cfg (m.load bits) :=
+  hq.elim (fun hm => QuietOf.load_active hd hm bits) (fun h => h.load bits)
+
+/-- **A freshly loaded instance is an admissible source**: whatever buffer was loaded (the model accepted it:
+`err = none`), if the instance is activated afterwards it satisfies `ActiveOK` — in particular it carries no
+request mark, although neither `R_::load` nor `RV_::loadEnter` ends with `clearRequests()`. -/
+theorem activeOK_loaded_reachable (hd : ReachableOf shape cfg m)
+    (hq : m.root.machineActive = true ∨ QuietOf shape cfg m) (bits : List Bool)
+    (he : (m.load bits).w.err = none) (ha : (m.load bits).root.machineActive = true)
+    (hw : (shape.toNode 0 0).WidthOK) : (m.load bits).ActiveOK :=
+  activeOK_reachable (quiet_loaded hd hq bits) he ha hw
+
+/-- **Load, then save: chain of replicas.**  `src` quiet and activated, `dst` any reachable instance of the same
+machine that is activated, or a quiet one under manual activation (activated or not): the loaded instance has
+the registry of `src`, saves the image of `src` bit for bit, and is itself quiet — so it can serve as the
+source of the next replica. -/
+theorem load_then_save_reachable (hs : QuietOf shape cs src) (hd : ReachableOf shape cd dst)
+    (hes : src.w.err = none) (hed : dst.w.err = none) (hsm : src.root.machineActive = true)
+    (hdq : dst.root.machineActive = true ∨ (QuietOf shape cd dst ∧ cd.manual = true))
+    (hw : (shape.toNode 0 0).WidthOK) :
+    (dst.load src.save).root = src.root ∧ (dst.load src.save).save = src.save ∧
+      QuietOf shape cd (dst.load src.save) := by
+  rcases hdq with hdm | ⟨hq, hman⟩
+  · have h := load_roundtrip_active_reachable hs hd hes hed hsm hdm hw
+    exact ⟨h.1, h.2, QuietOf.load_active hd hdm _⟩
+  · cases hdm : dst.root.machineActive
+    · have h := load_roundtrip_inactive_reachable hs hq hes hed hsm hdm hman hw
+      exact ⟨h.1, h.2, hq.load _⟩
+    · have h := load_roundtrip_active_reachable hs hd hes hed hsm hdm hw
+      exact ⟨h.1, h.2, hq.load _⟩
+
+/-- the same for a source that is NOT activated (manual activation on both sides): the image is the single bit
+`0`; an activated destination is exited, one that is not is left alone; it saves `[false]` and is quiet -/
+theorem load_then_save_from_inactive_reachable (hs : QuietOf shape cs src) (hd : ReachableOf shape cd dst)
+    (hes : src.w.err = none) (hed : dst.w.err = none) (hsm : src.root.machineActive = false)
+    (hsman : cs.manual = true) (hdman : cd.manual = true)
+    (hdq : dst.root.machineActive = true ∨ QuietOf shape cd dst) :
+    (dst.load src.save).save = src.save ∧ QuietOf shape cd (dst.load src.save) := by
+  refine ⟨?_, quiet_loaded hd hdq _⟩
+  cases hdm : dst.root.machineActive
+  · rcases hdq with h | hq
+    · rw [hdm] at h; cases h
+    · have hdo := inactiveOK_reachable hq hed hdman hdm
+      have hso := inactiveOK_reachable hs hes hsman hsm
+      rw [load_inactive_into_inactive src dst hso hdo, Mach.save_inactive dst hdo, Mach.save_inactive src hso]
+  · exact (load_roundtrip_from_inactive_reachable hs hd hes hsm hdm hsman hdman).2.2
+
+/-- two replicas in a row: `d2` loaded with the image saved from `d1` loaded with the image of `src` has the
+registry of `src` and saves its image; the intermediate instance needs no hypothesis of its own beyond having
+met no contract violation (its quietness and `ActiveOK` are DERIVED, `load_then_save_reachable`) -/
+theorem load_chain_reachable {c1 c2 : Config} {d1 d2 : Mach U}
+    (hs : QuietOf shape cs src) (h1 : ReachableOf shape c1 d1) (h2 : ReachableOf shape c2 d2)
+    (hes : src.w.err = none) (he1 : d1.w.err = none) (he2 : d2.w.err = none)
+    (he1' : (d1.load src.save).w.err = none)
+    (hsm : src.root.machineActive = true)
+    (hq1 : d1.root.machineActive = true ∨ (QuietOf shape c1 d1 ∧ c1.manual = true))
+    (hq2 : d2.root.machineActive = true ∨ (QuietOf shape c2 d2 ∧ c2.manual = true))
+    (hw : (shape.toNode 0 0).WidthOK) :
+    (d2.load (d1.load src.save).save).root = src.root ∧ (d2.load (d1.load src.save).save).save = src.save ∧
+      QuietOf shape c2 (d2.load (d1.load src.save).save) := by
+  obtain ⟨hr1, hsv1, hquiet1⟩ := load_then_save_reachable hs h1 hes he1 hsm hq1 hw
+  have hm1 : (d1.load src.save).root.machineActive = true := by rw [hr1]; exact hsm
+  obtain ⟨hr2, hsv2, hquiet2⟩ := load_then_save_reachable hquiet1 h2 he1' he2 hm1 hq2 hw
+  exact ⟨hr2.trans hr1, hsv2.trans hsv1, hquiet2⟩
+
 /-- the callbacks of the activated → activated load: every visible state that stopped being active is exited,
 every one that became active is entered, nothing but `exit / enter / reenter` is delivered -/
 theorem load_delivers_exits_and_enters_reachable (hs : QuietOf shape cs src) (hd : ReachableOf shape cd dst)
@@ -688,5 +757,21 @@ example : ∃ m : Mach Demo.DU, QuietOf Demo.shape Demo.cfg m ∧ m.w.err = none
     (Demo.shape.toNode 0 0).WidthOK :=
   ⟨_, Demo.quiet, Demo.err_none, Demo.active,
     by simp [Demo.shape, Shape.toNode, Shapes.toSubs, Node.WidthOK, Subs.WidthOKAll, Subs.len]⟩
+
+/-- the hypotheses of `load_then_save_reachable` are satisfiable together: the demonstration instance after its
+program (quiet, state 1 active again after a round trip through state 2) as source, the freshly booted one
+(activated) as destination -/
+example : ∃ src dst : Mach Demo.DU, QuietOf Demo.shape Demo.cfg src ∧ ReachableOf Demo.shape Demo.cfg dst ∧
+    src.w.err = none ∧ dst.w.err = none ∧ src.root.machineActive = true ∧ dst.root.machineActive = true ∧
+    (Demo.shape.toNode 0 0).WidthOK :=
+  ⟨_, _, Demo.quiet, Api.reachable_boot Demo.shape Demo.cfg Demo.ds [], Demo.err_none,
+    (by decide +kernel : Demo.mach.w.err = none), Demo.active,
+    (by decide +kernel : Demo.mach.root.machineActive = true),
+    by simp [Demo.shape, Shape.toNode, Shapes.toSubs, Node.WidthOK, Subs.WidthOKAll, Subs.len]⟩
+
+/-- … and the loaded instance of that example really went through `load` without contract violation -/
+example : (Demo.mach.load (Api.run Demo.mach Demo.prog).save).w.err = none ∧
+    (Demo.mach.load (Api.run Demo.mach Demo.prog).save).save = (Api.run Demo.mach Demo.prog).save := by
+  decide +kernel
 
 end Hfsm.Props.C08
